@@ -217,3 +217,12 @@ def as_container(values, kind):
     if kind == "iter":
         return iter(list(values))
     raise ValueError(kind)
+
+
+def q32(x):
+    """The float64 number that a float32 of x denotes (so that a value can be delivered in either precision)."""
+    if isinstance(x, list):
+        return [q32(v) for v in x]
+    if x is None or (isinstance(x, float) and x != x):
+        return x
+    return float(np.float32(x))
